@@ -23,7 +23,7 @@ import (
 // byte strings.  File level: ReadUserFileList on a scratch tree (wildcard add/omit) and
 // the stagemaker binary with -recipe.
 
-// ---- error classes (never message text) ----
+// ---- error classes (told from the message text where this table knows it) ----
 
 func c17class(msg string) string {
 	hp := strings.HasPrefix
@@ -74,7 +74,10 @@ func c17class(msg string) string {
 	case hs(msg, " does not exist"):
 		return "not-in-list"
 	}
-	return "other"
+	// a message this table does not know (reworded, or new): the class is not told from the
+	// text; the comparison with the model accepts any class in its place (the property asks for
+	// an error with file and line, not for a wording)
+	return unclassified
 }
 
 var c17loc = regexp.MustCompile(`(?s)^(.*) in ([^ ]+) line (\d+)$`)
@@ -151,6 +154,10 @@ func genName(g *Gen) string {
 	}
 	if g.Chance(1, 20) && n > 1 {
 		parts[0] = c17wild[g.Intn(len(c17wild))] // wildcard parent: refused
+	}
+	if g.Chance(1, 8) { // a name that is not a clean path: cleaned when the line is read
+		k := g.Intn(n + 1)
+		parts = append(parts[:k], append([]string{g.Pick(".", "..", "", "", "...")}, parts[k:]...)...)
 	}
 	s := "/" + strings.Join(parts, "/")
 	if g.Chance(1, 25) {
@@ -406,14 +413,30 @@ func c17tree() string {
 	return c17treeRoot
 }
 
-func observeUserList(pre, lines []string) interface{} {
+// c17slash stands for the scratch tree's own path in cases whose build root is "/" itself (the
+// stage of the running system): the names in such a case are host paths below the scratch tree
+const c17slash = "/@R"
+
+func observeUserList(pre, lines []string, slashRoot bool) interface{} {
 	root := c17tree()
 	const file = "addf"
+	if slashRoot {
+		for i := range pre {
+			pre[i] = strings.ReplaceAll(pre[i], c17slash, root)
+		}
+		for i := range lines {
+			lines[i] = strings.ReplaceAll(lines[i], c17slash, root)
+		}
+	}
 	fi := []vdb.FileInfo{}
 	for _, p := range pre {
 		fi = append(fi, vdb.FileInfo{Name: p})
 	}
-	fl, err := stage.GenerateFileList(fi, root)
+	treeRoot := root
+	if slashRoot {
+		treeRoot = "/"
+	}
+	fl, err := stage.GenerateFileList(fi, treeRoot)
 	if err != nil {
 		return obj("cls", "err:generate")
 	}
@@ -428,7 +451,19 @@ func observeUserList(pre, lines []string) interface{} {
 		}
 		errs = append(errs, []interface{}{n, c17class(body)})
 	}
-	return obj("cls", "ok", "names", hxs(fl.VerifEntryNames()), "errors", errs, "located", located)
+	names := fl.VerifEntryNames()
+	if slashRoot {
+		for i, n := range names {
+			switch {
+			case strings.HasPrefix(n, root):
+				names[i] = c17slash + n[len(root):]
+			case strings.HasPrefix(n, root[1:]): // a name that lost its leading slash
+				names[i] = c17slash[1:] + n[len(root)-1:]
+			}
+		}
+		sort.Strings(names)
+	}
+	return obj("cls", "ok", "names", hxs(names), "errors", errs, "located", located)
 }
 
 var c17rootsOnce sync.Once
@@ -554,16 +589,17 @@ func genRecipe(g *Gen) ([]string, bool) {
 	return lines, g.Chance(1, 4)
 }
 
-func genUserList(g *Gen) ([]string, []string) {
+func genUserList(g *Gen, prefix string) ([]string, []string) {
 	all := append(append([]string{}, c17files...), c17dirs...)
 	pre := []string{}
 	for _, p := range all {
 		if g.Chance(1, 3) {
-			pre = append(pre, p)
+			pre = append(pre, prefix+p)
 		}
 	}
 	names := []string{"/d/a1", "/d/b1", "/d/missing", "/d/sub", "/d/sub/s1", "/e", "/e/only", "/d/a\\*b", "/d/x.conf", "/d/sp ace",
-		"/d/a*", "/d/*.conf", "/d/*", "/d/zz*", "/d/sub/*", "/d/s*", "/e/*", "/*", "/d/a\\**", "/d/*1", "/d/sub/d*", "/new/dir"}
+		"/d/a*", "/d/*.conf", "/d/*", "/d/zz*", "/d/sub/*", "/d/s*", "/e/*", "/*", "/d/a\\**", "/d/*1", "/d/sub/d*", "/new/dir",
+		"/d//a1", "/d/./b1", "/d/sub/../a1", "/d/sub/", "//", "/.", "/d/..", "/d/sub/..//s*", "/new//dir/"}
 	lines := []string{}
 	for k := 1 + g.Intn(4); k > 0; k-- {
 		if g.Chance(1, 8) {
@@ -571,7 +607,7 @@ func genUserList(g *Gen) ([]string, []string) {
 			continue
 		}
 		ty := g.Pick("file", "dir", "tbd", "omit", "omit", "file")
-		nm := names[g.Intn(len(names))]
+		nm := prefix + names[g.Intn(len(names))]
 		f := []string{ty, nm}
 		if ty != "omit" && g.Chance(1, 3) {
 			f = append(f, "absent=skip")
@@ -621,7 +657,10 @@ func init() {
 		}
 		return obj("cls", "ok", "devtype", int(t), "major", int64(mj), "minor", int64(mn))
 	}
-	ops["stage.userlist"] = func(c Case) interface{} { return observeUserList(unhxs(c["pre"]), unhxs(c["lines"])) }
+	ops["stage.userlist"] = func(c Case) interface{} {
+		b, _ := c["slashroot"].(bool)
+		return observeUserList(unhxs(c["pre"]), unhxs(c["lines"]), b)
+	}
 	ops["sm.recipe"] = func(c Case) interface{} {
 		b, _ := c["cmd_root"].(bool)
 		return observeRecipe(unhxs(c["lines"]), b)
@@ -674,8 +713,21 @@ func init() {
 
 			// 4. file level: wildcard add / omit on the scratch tree
 			if i%3 == 0 {
-				pre, lines := genUserList(g)
-				emit(Case{"op": "stage.userlist", "files": hxs(c17files), "dirs": hxs(c17dirs), "pre": hxs(pre), "lines": hxs(lines)})
+				if i%12 == 3 {
+					// the build root is "/" itself: stage-relative names are host paths
+					pre, lines := genUserList(g, c17slash)
+					files, dirs := []string{}, []string{c17slash}
+					for _, f := range c17files {
+						files = append(files, c17slash+f)
+					}
+					for _, d := range c17dirs {
+						dirs = append(dirs, c17slash+d)
+					}
+					emit(Case{"op": "stage.userlist", "files": hxs(files), "dirs": hxs(dirs), "pre": hxs(pre), "lines": hxs(lines), "slashroot": true})
+				} else {
+					pre, lines := genUserList(g, "")
+					emit(Case{"op": "stage.userlist", "files": hxs(c17files), "dirs": hxs(c17dirs), "pre": hxs(pre), "lines": hxs(lines)})
+				}
 			}
 			// 5. recipe files through the stagemaker binary
 			if i%10 == 0 || (tier == "thorough" && i%40 == 1) {
